@@ -11,11 +11,13 @@
 EXTENDS Health, TLC
 
 CONSTANTS FixDurs, ScanDurs, RestDurs, NodeDurs,   \* sets of durations swept from Init
-          UseSw, UseFs,                             \* which half of the node is exercised
+          UseSw, FsOps,                             \* which half of the node is exercised: software; set of file/folder operations
           AllowRestart,                             \* an overlapping scan / restore request may restart the clock
           InitSw                                    \* initial true health values of the software
 
 View == <<cfgv, on, swv, fsv, osAge, inTick>>
+UseFs == FsOps # {}
+Fs(op) == op \in FsOps
 
 Rank(h) == CASE h = "NONE" -> 0 [] h = "GOOD" -> 1 [] h = "COMPROMISED" -> 2 [] h = "CORRUPT" -> 3
              [] h = "RESTORING" -> 4 [] h = "REPAIRING" -> 5
@@ -36,20 +38,20 @@ MSwStart      == UseSw /\ swA = "UNUSED" /\ SwStart(IF on THEN "GOOD" ELSE swA)
 MSwConnect(a2) == UseSw /\ on /\ a2 # swA /\ SwConnect(a2)
 MSwInstall    == UseSw /\ on /\ ~installing /\ swA = "UNUSED" /\ SwInstall
 \* --- files / folder ---------------------------------------------------------------
-MFileScan(i)    == UseFs /\ FileScan(i, on)
-MFileCorrupt(i) == UseFs /\ FileEvent("FileCorrupt", i, IF on /\ fH[i] = "GOOD" THEN "CORRUPT" ELSE fH[i])
-MFileRepair(i)  == UseFs /\ FileEvent("FileRepair", i, IF on /\ fH[i] = "CORRUPT" THEN "GOOD" ELSE fH[i])
-MFileRestore(i) == UseFs /\ FileEvent("FileRestore", i, IF on /\ fH[i] = "CORRUPT" THEN "GOOD" ELSE fH[i])
-MSqlDelete      == UseFs /\ FileEvent("SqlDelete", 1, IF on THEN "COMPROMISED" ELSE fH[1])
-MSqlEncrypt     == UseFs /\ FileEvent("SqlEncrypt", 1, IF on THEN "CORRUPT" ELSE fH[1])
-MFolderCorrupt  == UseFs /\ FolderEvent("FolderCorrupt",
+MFileScan(i)    == Fs("FileScan") /\ FileScan(i, on)
+MFileCorrupt(i) == Fs("FileCorrupt") /\ FileEvent("FileCorrupt", i, IF on /\ fH[i] = "GOOD" THEN "CORRUPT" ELSE fH[i])
+MFileRepair(i)  == Fs("FileRepair") /\ FileEvent("FileRepair", i, IF on /\ fH[i] = "CORRUPT" THEN "GOOD" ELSE fH[i])
+MFileRestore(i) == Fs("FileRestore") /\ FileEvent("FileRestore", i, IF on /\ fH[i] = "CORRUPT" THEN "GOOD" ELSE fH[i])
+MSqlDelete      == Fs("SqlDelete") /\ FileEvent("SqlDelete", 1, IF on THEN "COMPROMISED" ELSE fH[1])
+MSqlEncrypt     == Fs("SqlEncrypt") /\ FileEvent("SqlEncrypt", 1, IF on THEN "CORRUPT" ELSE fH[1])
+MFolderCorrupt  == Fs("FolderCorrupt") /\ FolderEvent("FolderCorrupt",
                         [i \in Files |-> IF on /\ fH[i] = "GOOD" THEN "CORRUPT" ELSE fH[i]])
-MFolderRepair   == UseFs /\ FolderEvent("FolderRepair",
+MFolderRepair   == Fs("FolderRepair") /\ FolderEvent("FolderRepair",
                         [i \in Files |-> IF on /\ fH[i] = "CORRUPT" THEN "GOOD" ELSE fH[i]])
 MFolderScan(dn, rs) ==
-    UseFs /\ FolderScanReq(on, on /\ dn, rs, Files, IF on /\ dn THEN fH ELSE fV, IF on /\ dn THEN Worst(fH) ELSE foV)
+    Fs("FolderScan") /\ FolderScanReq(on, on /\ dn, rs, Files, IF on /\ dn THEN fH ELSE fV, IF on /\ dn THEN Worst(fH) ELSE foV)
 MFolderRestore(dn, rs) ==
-    UseFs /\ FolderRestoreReq(on, on /\ dn, rs, IF on /\ dn THEN RestoredAll ELSE fH)
+    Fs("FolderRestore") /\ FolderRestoreReq(on, on /\ dn, rs, Files, IF on /\ dn THEN RestoredAll ELSE fH)
 \* --- node ---------------------------------------------------------------------
 MOsScan(dn, rs) ==
     OsScanReq(on, on /\ dn, rs, Files, IF on /\ dn THEN fH ELSE fV, IF on /\ dn THEN Worst(fH) ELSE foV)
@@ -61,7 +63,7 @@ MOsScanDone  == OsScanDone(Files, fH, Worst(fH))
 MFoScanDone  == UseFs /\ FoScanDone(Files, fH, Worst(fH))
 MFixDone(r)  == UseSw /\ FixDone(IF r /\ UseFs /\ fH[1] # "GOOD" THEN [fH EXCEPT ![1] = "GOOD"] ELSE fH)
 MInstallDone == UseSw /\ InstallDone
-MRestoreDone == UseFs /\ RestoreDone(RestoredAll)
+MRestoreDone == UseFs /\ RestoreDone(Files, RestoredAll)
 MTickEnd     == TickEnd
 
 TickStep ==
